@@ -74,10 +74,9 @@ func runC10(c *Ctx) {
 		R.Analysed(fname(rum))
 		l := core.NewLin(c.P, rum, mods, sum)
 		var sizeV ssa.Value
-		for _, ci := range core.Calls(rum) {
-			if call, ok := ci.(*ssa.Call); ok && isReaderMethod(call, "ReadMsgSize") {
-				sizeV = resultOf(call, 0)
-			}
+		fl := c.fills(rum)
+		if len(fl) == 1 {
+			sizeV = fl[0].size
 		}
 		mts := maxTerms(l)
 		if sizeV == nil || len(mts) == 0 {
@@ -90,7 +89,17 @@ func runC10(c *Ctx) {
 					continue
 				}
 				callee := core.StaticCallee(call)
-				if callee != reset && !core.FuncIs(callee, "io", "ReadFull") {
+				if callee != reset && !core.FuncIs(callee, "io", "ReadFull") && ssa.Instruction(call) != fl[0].site {
+					continue
+				}
+				if core.FuncIs(callee, "io", "ReadFull") && ssa.Instruction(call) != fl[0].site && fl[0].via == nil {
+					if sl, isSl := call.Call.Args[1].(*ssa.Slice); isSl {
+						if fr, isF := core.FieldOfAddr(sl.X); isF && fr.Name == "header" {
+							continue // the 4-byte header read
+						}
+					}
+				}
+				if core.FuncIs(callee, "io", "ReadFull") && fl[0].via != nil {
 					continue
 				}
 				upper := false
@@ -116,6 +125,33 @@ func runC10(c *Ctx) {
 						continue
 					}
 					truth := p.Succs[0] == blk
+					// a boolean helper (e.g. reader.fits(size)) guarding the accept path: the rejecting edge is
+					// its false outcome, and what it implies when true must be exactly the two accept bounds
+					condV := iff.Cond
+					if u, isNot := condV.(*ssa.UnOp); isNot && u.Op == token.NOT {
+						condV, truth = u.X, !truth
+					}
+					if pc, isCall := condV.(*ssa.Call); isCall && !truth {
+						facts := l.PredicateFactStrings(pc)
+						want := map[string]bool{canonLE(core.Zero, st, so): true}
+						for _, m := range mts {
+							want[canonLE(st, m, -so)] = true
+						}
+						nMatch := 0
+						extra := false
+						for _, f := range facts {
+							if want[f] {
+								nMatch++
+							} else if !strings.HasPrefix(f, "0 - ") || !strings.HasSuffix(f, "<= 0") { // ignore trivial unsigned facts
+								extra = true
+							}
+						}
+						got = append(got, "!"+callDescr(pc)+"{"+strings.Join(facts, "; ")+"}")
+						if nMatch < 2 || extra {
+							okEdges = false
+						}
+						continue
+					}
 					form := c.canon(l, iff.Cond, truth)
 					got = append(got, form)
 					exact := false
@@ -135,7 +171,7 @@ func runC10(c *Ctx) {
 				// nothing buffered on the rejecting path
 				for _, in := range blk.Instrs {
 					if call, ok := in.(*ssa.Call); ok {
-						if cal := core.StaticCallee(call); cal == reset || core.FuncIs(cal, "io", "ReadFull") {
+						if cal := core.StaticCallee(call); cal == reset || core.FuncIs(cal, "io", "ReadFull") || (fl[0].via != nil && cal == fl[0].via) {
 							R.Fail("C10.R1", "ReadUntypedMsg:reject-buffers", c.at(call), "nothing is allocated or read for a rejected size", "the rejecting block calls "+callDescr(call))
 						}
 					}
@@ -354,24 +390,17 @@ func (c *Ctx) canon(l *core.Lin, cond ssa.Value, truth bool) string {
 
 func (c *Ctx) sizeIsHeaderMinus4(rule string) {
 	R := c.R
-	rms := c.mustMethod(rule, "buffer", "Reader", "ReadMsgSize")
-	if rms == nil {
+	rum := c.mustMethod(rule, "buffer", "Reader", "ReadUntypedMsg")
+	if rum == nil {
 		return
 	}
-	l := core.NewLin(c.P, rms, c.modSets(), c.summaries(rule))
-	ok := false
-	for _, r := range returns(rms) {
-		if !core.IsNilConst(r.Results[1]) {
-			continue
-		}
-		t, off := l.Expr(r.Results[0])
-		if call, isCall := t.V.(*ssa.Call); isCall && off == -4 && t.K == core.TVal {
-			if f := core.StaticCallee(call); f != nil && f.Name() == "Uint32" && f.Pkg != nil && f.Pkg.Pkg.Path() == "encoding/binary" {
-				ok = true
-			}
-		}
+	fl := c.fills(rum)
+	if len(fl) != 1 {
+		R.Fail(rule, "ReadMsgSize:size-is-unsigned-header-minus-4", c.atFn(rum), "the body size is the unsigned 32-bit header minus 4", "the reset + ReadFull step of ReadUntypedMsg was not found")
+		return
 	}
-	R.Check(ok, rule, "ReadMsgSize:size-is-unsigned-header-minus-4", c.atFn(rms), "the body size is the unsigned 32-bit header minus 4: declared lengths 0..3 become negative (rejected), large lengths are never wrapped or truncated", "E-LIN normal form: Uint32(header[:]) - 4 through value-preserving conversions", "the size is not Uint32(header) - 4 through value-preserving conversions: huge declared lengths wrap (e.g. become negative and skip nothing)")
+	l := core.NewLin(c.P, rum, c.modSets(), c.summaries(rule))
+	R.Check(c.headerSizeExpr(l, fl[0].size, 0), rule, "ReadMsgSize:size-is-unsigned-header-minus-4", c.at(fl[0].site), "the body size is the unsigned 32-bit header minus 4: declared lengths 0..3 become negative (rejected), large lengths are never wrapped or truncated", "E-LIN normal form: Uint32(header[:]) - 4 through value-preserving conversions", "the size is not Uint32(header) - 4 through value-preserving conversions: huge declared lengths wrap (e.g. become negative and skip nothing)")
 }
 
 // c10Slurp: chunked skipping.
@@ -417,29 +446,27 @@ func (c *Ctx) c10Slurp() {
 	R.Check(okGuard, "C10.R3", "Slurp:loops-while-remaining", c.at(h.Instrs[len(h.Instrs)-1]), "Slurp continues exactly while bytes remain (remaining > 0)", "header condition 0 - remaining <= -1 enters the body", "the loop condition is not remaining > 0")
 	// decrement by the bytes read
 	okDec := false
-	var rf *ssa.Call
-	for b := range loop.Body {
-		for _, in := range b.Instrs {
-			if call, ok := in.(*ssa.Call); ok && core.FuncIs(core.StaticCallee(call), "io", "ReadFull") {
-				rf = call
-			}
+	var sf *fill
+	for _, f := range c.fills(sl) {
+		if loop.Body[f.site.Block()] {
+			ff := f
+			sf = &ff
 		}
 	}
 	for i, e := range rem.Edges {
 		if !loop.Body[h.Preds[i]] {
 			continue
 		}
-		if sub, ok := e.(*ssa.BinOp); ok && sub.Op == token.SUB && sub.X == ssa.Value(rem) && rf != nil && sub.Y == resultOf(rf, 0) {
+		if sub, ok := e.(*ssa.BinOp); ok && sub.Op == token.SUB && sub.X == ssa.Value(rem) && sf != nil && sub.Y == sf.n {
 			okDec = true
 		}
 	}
 	R.Check(okDec, "C10.R3", "Slurp:subtracts-bytes-read", c.at(h.Instrs[0]), "each iteration subtracts exactly the number of bytes io.ReadFull consumed", "remaining = remaining - n with n the ReadFull result", "the loop variable is not decremented by the ReadFull byte count")
 	// chunk <= limit and <= remaining: lifted preconditions of reset are proved by C04.R2 / panicFreedom; here: chunk <= remaining
-	if rf != nil {
-		reset := c.P.Method("buffer", "Reader", "reset")
-		for _, ci := range callsIn(sl, calleeIs(reset)) {
+	if sf != nil {
+		for _, ci := range []ssa.Instruction{sf.site} {
 			l := core.NewLin(c.P, sl, c.modSets(), c.summaries("C10.R3"))
-			arg := ci.Common().Args[1]
+			arg := sf.size
 			t, off := l.Expr(arg)
 			okRem := l.Prove(ci, t, core.Term{K: core.TVal, V: rem}, -off)
 			okMax := false
